@@ -2,7 +2,11 @@ package forward
 
 //verif:pkg internal/dnsserver/forward
 
-import "github.com/miekg/dns"
+import (
+	"strings"
+
+	"github.com/miekg/dns"
+)
 
 func verifName(n int) string {
 	b := make([]byte, n+1)
@@ -56,6 +60,32 @@ func VerifC17Validate() {
 		}
 	}
 	verifAssert("accepted-iff-id-type-and-name-match", (err == nil) == want)
+	if err == nil {
+		verifReach("accepted")
+	} else {
+		verifReach("rejected")
+	}
+}
+
+// VerifC17ValidateNames: the name of the reply's question must be the queried name
+// itself (ASCII case ignored): a subdomain, a parent, or a name that merely ends or
+// begins like it is rejected.
+//
+//verif:harness name=H17f-validate-names tier=quick,thorough bounds="query example.org. or www.example.org.; reply named as one of 8 related names (equal, other case, subdomain, parent, look-alike with a longer first or last label, root)" reach=accepted,rejected
+func VerifC17ValidateNames() {
+	qn := []string{"example.org.", "www.example.org."}[verifChoice(2)]
+	names := []string{"example.org.", "EXAMPLE.Org.", "www.example.org.", "a.www.example.org.", "org.", "xexample.org.", "example.orgx.", "."}
+	rn := names[verifChoice(len(names))]
+	id := nondetU16()
+	req := &dns.Msg{}
+	req.Id = id
+	req.Question = []dns.Question{{Name: qn, Qtype: dns.TypeA, Qclass: dns.ClassINET}}
+	resp := &dns.Msg{}
+	resp.Id = id
+	resp.Question = []dns.Question{{Name: rn, Qtype: dns.TypeA, Qclass: dns.ClassINET}}
+	err := validatePlainResponse(req, resp)
+	want := strings.EqualFold(qn, rn)
+	verifAssert("accepted-iff-the-reply-is-for-the-queried-name", (err == nil) == want)
 	if err == nil {
 		verifReach("accepted")
 	} else {
